@@ -172,6 +172,35 @@ fn any_checks(r: &mut Rng, m: &mut Vec<String>) {
             }
         }
     }
+    // targets that BORROW from the value (only reachable through from_value): &str, &[u8], in every position
+    {
+        let v = Value::string("héllo");
+        if serde_lexpr::from_value::<&str>(&v).ok() != Some("héllo") { m.push("FAIL C04 from_value::<&str> does not return the borrowed string".into()); }
+        let pair = Value::vector(vec![Value::string("a"), Value::string("b")]);
+        if serde_lexpr::from_value::<(&str, &str)>(&pair).ok() != Some(("a", "b")) { m.push("FAIL C04 from_value::<(&str, &str)> fails on #(\"a\" \"b\")".into()); }
+        let lst = Value::list(vec![Value::string("x"), Value::string("y")]);
+        if serde_lexpr::from_value::<Vec<&str>>(&lst).ok() != Some(vec!["x", "y"]) { m.push("FAIL C04 from_value::<Vec<&str>> fails".into()); }
+        let opt = Value::list(vec![Value::string("x")]);
+        if serde_lexpr::from_value::<Option<&str>>(&opt).ok() != Some(Some("x")) { m.push("FAIL C04 from_value::<Option<&str>> fails".into()); }
+        let al = Value::list(vec![Value::cons(Value::string("k"), 1)]);
+        if serde_lexpr::from_value::<BTreeMap<&str, u8>>(&al).ok().map(|m| m.get("k").copied()) != Some(Some(1)) { m.push("FAIL C04 from_value::<BTreeMap<&str, u8>> fails".into()); }
+        #[derive(Deserialize, Debug, PartialEq)]
+        struct Borrowing<'a> { name: &'a str, #[serde(borrow)] tags: Vec<&'a str> }
+        let bv = Value::list(vec![Value::cons(Value::symbol("name"), Value::string("n")), Value::cons(Value::symbol("tags"), Value::list(vec![Value::string("t1")]))]);
+        if serde_lexpr::from_value::<Borrowing>(&bv).ok() != Some(Borrowing { name: "n", tags: vec!["t1"] }) { m.push("FAIL C04 from_value into a struct with borrowed fields fails".into()); }
+        let by = Value::bytes(vec![1u8, 2, 3]);
+        if serde_lexpr::from_value::<&serde_bytes::Bytes>(&by).ok().map(|b| b.to_vec()) != Some(vec![1u8, 2, 3]) { m.push("FAIL C04 from_value::<&Bytes> fails".into()); }
+    }
+    // content that cannot be serialized makes the whole conversion fail — it never turns into another shape
+    {
+        struct Failing;
+        impl Serialize for Failing { fn serialize<S: serde::Serializer>(&self, _: S) -> Result<S::Ok, S::Error> { Err(serde::ser::Error::custom("no")) } }
+        #[derive(Serialize)] struct Holder { payload: Option<Failing>, n: u8 }
+        let bad = [serde_lexpr::to_value(&Some(Failing)).is_ok(), serde_lexpr::to_value(&Some(u128::MAX)).map(|v| !(v.as_cons().is_some())).unwrap_or(false),
+                   serde_lexpr::to_value(&vec![Some(Failing)]).is_ok(), serde_lexpr::to_value(&Holder { payload: Some(Failing), n: 1 }).is_ok(),
+                   serde_lexpr::to_value(&(1u8, Failing)).is_ok(), serde_lexpr::to_value(&Some(Some(Failing))).is_ok(), serde_lexpr::to_string(&Some(Failing)).is_ok()];
+        if bad.iter().any(|b| *b) { m.push(format!("FAIL C14 a value whose content fails to serialize was serialized anyway (Some / Vec / struct / tuple / nested / text): {:?}", bad)); }
+    }
     // 128-bit integers: refused, or the integer of the same mathematical value (never a wrapped one)
     for x in [1i128 << 63, (1i128 << 64) - 1, (1i128 << 63) + 12345, -(1i128 << 63), i64::MAX as i128, -1, 0, 1i128 << 64, -(1i128 << 63) - 1] {
         if let Ok(v) = serde_lexpr::to_value(&x) {
